@@ -4,6 +4,7 @@ import (
 	"fmt"
 	"go/token"
 	"go/types"
+	"strings"
 
 	"golang.org/x/tools/go/ssa"
 
@@ -354,6 +355,67 @@ func (c *Ctx) c15Accept(serve, loopFn *ssa.Function, memo map[*ssa.Function]int)
 	if nTemp == 0 {
 		r.Fail("R3", fname(serve)+":temporary-accept-error", c.pos(accept), "Accept errors are not tested with net.Error.Temporary(): a transient accept error stops the server")
 	}
+	// the temporary test must be able to see the error: listeners of the library hand Accept errors on as they
+	// are (a wrapped error no longer is a net.Error for the type assertion in the accept loop)
+	for _, f := range c.P.LibraryFuncs() {
+		if f.Name() != "Accept" || f.Signature.Recv() == nil || f.Signature.Results().Len() != 2 || !isErrorType(f.Signature.Results().At(1).Type()) || !flow.TypeIs(f.Signature.Results().At(0).Type(), "net", "Conn") {
+			continue
+		}
+		key := fname(f) + ":accept-error-unwrapped"
+		bad := ""
+		var at ssa.Instruction
+		flow.Instrs(f, func(in ssa.Instruction) {
+			ret, ok := in.(*ssa.Return)
+			if !ok || len(ret.Results) != 2 || bad != "" {
+				return
+			}
+			for _, src := range flow.SpillSources(ret.Results[1]) {
+				if flow.IsNilConst(src) {
+					continue
+				}
+				if ex, ok := src.(*ssa.Extract); ok {
+					if call, ok := ex.Tuple.(*ssa.Call); ok {
+						name := ""
+						if call.Call.IsInvoke() {
+							name = call.Call.Method.Name()
+						} else if o := flow.CalleeObj(call); o != nil {
+							name = o.Name()
+						}
+						if strings.HasPrefix(name, "Accept") {
+							continue
+						}
+					}
+				}
+				if call, ok := src.(*ssa.Call); ok && (flow.IsCallTo(call, "fmt", "", "Errorf") || flow.IsCallTo(call, "errors", "", "New")) {
+					// a freshly made error on a path where the underlying Accept failed hides that error's type
+					bad, at = "a library listener replaces / wraps the error of the underlying Accept ("+short(src.String(), 40)+"): Serve's net.Error Temporary() test no longer recognises transient accept errors and stops the server", ret
+				}
+			}
+		})
+		if bad != "" {
+			// only when the function actually calls an underlying Accept on that path
+			callsAccept := false
+			for _, ci := range flow.CallInstrs(f) {
+				n := ""
+				if ci.Common().IsInvoke() {
+					n = ci.Common().Method.Name()
+				} else if o := flow.CalleeObj(ci); o != nil {
+					n = o.Name()
+				}
+				if strings.HasPrefix(n, "Accept") {
+					callsAccept = true
+				}
+			}
+			if !callsAccept {
+				bad = ""
+			}
+		}
+		if bad != "" {
+			r.Fail("R3", key, c.pos(at), bad)
+		} else {
+			r.Ok("R3", key, c.fpos(f), "errors of the underlying Accept are returned as they are")
+		}
+	}
 	// constructor failure continues
 	for _, ci := range flow.CallInstrs(serve) {
 		call, ok := ci.(*ssa.Call)
@@ -508,6 +570,19 @@ func (c *Ctx) reportOffered(fn *ssa.Function, errv ssa.Value, inRegion func(*ssa
 		if ok, at, why := guardsOK(report); !ok {
 			return false, at, why
 		}
+		// the reporter asked is the handler that serves the connection: the server's Handler or, when that is
+		// nil, the default mux — not the bare field (a server without an explicit handler would lose its reports)
+		if rv := report.Call.Value; rv != nil {
+			src := rv
+			if ex, ok := src.(*ssa.Extract); ok {
+				src = ex.Tuple
+			}
+			if ta, ok := src.(*ssa.TypeAssert); ok {
+				if !c.handlerWithFallback(ta.X, 0) {
+					return false, ta, "the error reporter is looked for on the server's Handler field alone, without the DefaultServeMux fallback used for dispatch: a server or client running with the default mux is never offered the report"
+				}
+			}
+		}
 		carries := false
 		if len(report.Call.Args) == 1 {
 			if alloc, ok := report.Call.Args[0].(*ssa.Alloc); ok {
@@ -606,4 +681,50 @@ func (c *Ctx) reachesConnIO(g *ssa.Function, seen map[*ssa.Function]bool) string
 		}
 	}
 	return ""
+}
+
+// handlerWithFallback: v is the effective handler of a server — it can be the package's default mux when the
+// Handler field is nil (a merge that includes DefaultServeMux, or the result of a helper computing that).
+func (c *Ctx) handlerWithFallback(v ssa.Value, depth int) bool {
+	if depth > 4 || v == nil {
+		return false
+	}
+	switch x := v.(type) {
+	case *ssa.Phi:
+		for _, e := range x.Edges {
+			if c.handlerWithFallback(e, depth+1) {
+				return true
+			}
+		}
+	case *ssa.MakeInterface:
+		return c.handlerWithFallback(x.X, depth+1)
+	case *ssa.ChangeInterface:
+		return c.handlerWithFallback(x.X, depth+1)
+	case *ssa.UnOp:
+		if gl := loadedGlobal(x); gl != nil && gl.Name() == "DefaultServeMux" {
+			return true
+		}
+		if al, ok := x.X.(*ssa.Alloc); ok {
+			for _, ref := range flow.Referrers(al) {
+				if st, ok := ref.(*ssa.Store); ok && st.Addr == ssa.Value(al) && c.handlerWithFallback(st.Val, depth+1) {
+					return true
+				}
+			}
+		}
+	case *ssa.Call:
+		if g := flow.StaticCallee(x); g != nil && g.Blocks != nil && c.P.IsLibrary(g) {
+			for _, rv := range flow.ReturnValues(g, 0) {
+				if c.handlerWithFallback(rv, depth+1) {
+					return true
+				}
+			}
+		}
+	case *ssa.Parameter:
+		for _, cs := range c.librarySites(x.Parent()) {
+			if i := paramIndex(x.Parent(), x); i < len(cs.Common().Args) && c.handlerWithFallback(cs.Common().Args[i], depth+1) {
+				return true
+			}
+		}
+	}
+	return false
 }
